@@ -90,7 +90,67 @@ def describe(oc, arrays, cfg):
 def snap(st):
     return {"t": int(st[0]), "E": fl(st[1].fields.E), "H": fl(st[1].fields.H)}
 
+def tile_fields(a, reps, phases):
+    """tile array a (3,nx,ny,nz) reps[a] times along each axis, copy j multiplied by phase^j"""
+    a = np.asarray(a)
+    for ax in range(3):
+        m = reps[ax]
+        if m > 1:
+            a = np.concatenate([a * (phases[ax] ** j) for j in range(m)], axis=ax + 1)
+    return a
+
+def run_tiled(c):
+    """supercell: the N-cell container and the (reps*N)-cell container with tiled materials / fields"""
+    small = run_case({k: v for k, v in c.items() if k != "tile"})
+    oc, arrays, cfg = build_hand({k: v for k, v in c.items() if k != "tile"})
+    reps = c["tile"]
+    big_c = dict(c); big_c.pop("tile")
+    big_c["shape"] = [n * r for n, r in zip(c["shape"], reps)]
+    if c.get("edges"):
+        big_c["edges"] = None
+    oc2, arrays2, cfg2 = build_hand(big_c)
+    phases = [1.0, 1.0, 1.0]
+    for b in oc.boundary_objects:
+        if hasattr(b, "get_bloch_phase") and b.needs_complex_fields and b.direction == "+":
+            phases[b.axis] = complex(b.get_bloch_phase(oc.volume.grid_shape, cfg.uniform_spacing()))
+    E = tile_fields(arrays.fields.E, reps, phases); H = tile_fields(arrays.fields.H, reps, phases)
+    one = [1.0, 1.0, 1.0]
+    arrays2 = arrays2.aset("fields->E", jnp.asarray(E.astype(arrays2.fields.E.dtype))).aset("fields->H", jnp.asarray(H.astype(arrays2.fields.H.dtype)))
+    arrays2 = arrays2.aset("inv_permittivities", jnp.asarray(tile_fields(arrays.inv_permittivities, reps, one)))
+    arrays2 = arrays2.aset("inv_permeabilities", jnp.asarray(tile_fields(arrays.inv_permeabilities, reps, one)))
+    if arrays.electric_conductivity is not None:
+        arrays2 = arrays2.aset("electric_conductivity", jnp.asarray(tile_fields(arrays.electric_conductivity, reps, one)))
+    if arrays.magnetic_conductivity is not None:
+        arrays2 = arrays2.aset("magnetic_conductivity", jnp.asarray(tile_fields(arrays.magnetic_conductivity, reps, one)))
+    big = describe(oc2, arrays2, cfg2)
+    st = (jnp.asarray(0, dtype=jnp.int32), arrays2)
+    states = [snap(st)]
+    worst = 0.0
+    scale = 1e-300
+    for t in range(int(c.get("steps", 2))):
+        st = forward(st, cfg2, oc2, KEY, record_detectors=False, record_boundaries=False, simulate_boundaries=True)
+        states.append(snap(st))
+    big["states"] = states
+    # compare with the tiled small trajectory
+    def cx(x):
+        if isinstance(x, dict):
+            return np.array(_unhex(x["re"])) + 1j * np.array(_unhex(x["im"]))
+        return np.array(_unhex(x))
+    errs = []
+    for ss, bs in zip(small["states"], states):
+        for f in ("E", "H"):
+            exp = tile_fields(cx(ss[f]), reps, phases)
+            got = cx(bs[f])
+            scale = max(scale, float(np.abs(exp).max()))
+            errs.append(float(np.abs(exp - got).max()))
+    return {"small": small, "big": big, "tile_err": max(errs), "scale": scale, "phases": [[complex(p).real, complex(p).imag] for p in phases]}
+
+def _unhex(x):
+    return [_unhex(v) for v in x] if isinstance(x, list) else float.fromhex(x)
+
 def run_case(c):
+    if c.get("tile"):
+        return run_tiled(c)
     oc, arrays, cfg = build_hand(c)
     out = describe(oc, arrays, cfg)
     st = (jnp.asarray(0, dtype=jnp.int32), arrays)
